@@ -100,6 +100,9 @@ def gen_shape(rng, depth, in_repeater=False, first=False):
             ms = [["x"]] + [m for m in ms if m[0] in ("spy",)][:2] + [["spy"]]
             if kind == "union" and rng.random() < 0.4:
                 ms = [["spy"]] + ms           # ... or a member that builds from nothing first: then that one is what build runs
+            if kind == "union" and rng.random() < 0.5:
+                # the member the stream continues after is selected by a context expression (resolved in the Union's own scope)
+                return [kind, ms, rng.choice(["this.x", "this._.x", "this._._.x", "this._root.x", "this._params.k", "this._index", "this._._index"])]
         if kind == "lazystruct":
             # while parsing, LazyStruct only *sizes* its members (leaves and plain nested structures; the latter are entered
             # through their sizeof while the call in progress is a parse)
@@ -189,6 +192,21 @@ def simulate(shape, op):
         if k == "spy":
             obs.append({"sid": next(sid), "depth": len(chain) - 1, "x": [c.get("x", MISSING) for c in chain[:-1]], "index": [c.get("_index", None) for c in chain]})
             return None
+        if k == "arrd":
+            # a named array "a" of members that build derives by themselves (Default given nothing)
+            if op != "sizeof":
+                out.extend([DV] * node[1])
+                cur["_index"] = ANY            # what a finished repeater leaves behind is unspecified
+            return [DV] * node[1]
+        if k == "depa":
+            # a member whose length is an element of that array as it was actually built / parsed
+            arr = cur.get("a", MISSING)
+            n = arr[node[1]] if isinstance(arr, list) else MISSING
+            obs.append({"sid": "dep", "path": "this.a[%d]" % node[1], "value": n})
+            if isinstance(n, int) and not isinstance(n, bool) and op != "sizeof":
+                out.extend(bytes([0xd0 + n]) * n)
+                return None
+            raise Stop()
         if k == "dep":
             n = resolve(node[1], chain)
             obs.append({"sid": "dep", "path": node[1], "value": n})
@@ -221,6 +239,13 @@ def simulate(shape, op):
                 v = walk(m, ch2, key + (i,), sizing or (k == "lazystruct" and op == "parse"))
                 if m[0] == "x" and op != "sizeof" and not sizing:
                     sc["x"] = v
+                if m[0] == "arrd" and op != "sizeof" and not sizing:
+                    sc["a"] = v
+            if k == "union" and len(node) > 2 and op == "parse":
+                sel = resolve(node[2], ch2)
+                obs.append({"sid": "sel", "path": node[2], "value": sel})
+                if not isinstance(sel, int) or isinstance(sel, bool):
+                    raise Stop()               # the selector does not resolve to a number here: shape discarded
             return None
         n = node[1]
         if op == "sizeof":
@@ -250,6 +275,10 @@ def mk_construct(shape, Spy, log, sidc):
         return C.Byte if len(shape) == 1 else C.Default(C.Byte, DV)
     if k == "spy":
         return Spy(next(sidc), log)
+    if k == "arrd":
+        return C.Array(shape[1], C.Default(C.Byte, DV))
+    if k == "depa":
+        return C.Bytes(C.this.a[shape[1]])
     if k == "dep":
         p = shape[1]
         e = {"this.x": C.this.x, "this._.x": C.this._.x, "this._._.x": C.this._._.x, "this._root.x": C.this._root.x, "this._params.k": C.this._params.k,
@@ -263,6 +292,8 @@ def mk_construct(shape, Spy, log, sidc):
             if m[0] == "x":
                 nm = "x" if names["x"] == 0 else "x%d" % names["x"]
                 names["x"] += 1
+            elif m[0] == "arrd":
+                nm = "a"
             else:
                 nm = "m%d" % i
             ms.append(nm / c)
@@ -273,7 +304,12 @@ def mk_construct(shape, Spy, log, sidc):
         if k == "focused":
             return C.FocusedSeq(ms[0].name, *ms)
         if k == "union":
-            return C.Union([i for i, m in enumerate(shape[1]) if m[0] == "x"][0], *ms)
+            ix = [i for i, m in enumerate(shape[1]) if m[0] == "x"][0]
+            if len(shape) > 2:
+                e = {"this.x": C.this.x, "this._.x": C.this._.x, "this._._.x": C.this._._.x, "this._root.x": C.this._root.x, "this._params.k": C.this._params.k,
+                     "this._index": C.this._index, "this._._index": C.this._._index}[shape[2]]
+                return C.Union(e * 0 + ix, *ms)
+            return C.Union(ix, *ms)
         if k == "lazystruct":
             return C.LazyStruct(*ms)
     n, elem, discard = shape[1], shape[2], shape[3]
@@ -306,6 +342,10 @@ def build_value(shape, key=()):
         return None
     if k == "dep":
         return ("dep", shape[1])
+    if k == "arrd":
+        return [None] * shape[1]
+    if k == "depa":
+        return ("dep", "this.a[%d]" % shape[1])
     if k in OPENERS:
         if k == "seq":
             return [build_value(m, key + (i,)) for i, m in enumerate(shape[1])]
@@ -313,7 +353,7 @@ def build_value(shape, key=()):
         for i, m in enumerate(shape[1]):
             if m[0] == "x" and len(m) > 1:
                 continue                       # derived: not supplied
-            d["x" if m[0] == "x" else "m%d" % i] = build_value(m, key + (i,))
+            d["x" if m[0] == "x" else "a" if m[0] == "arrd" else "m%d" % i] = build_value(m, key + (i,))
         if k == "focused":
             first = shape[1][0]
             return d["x" if first[0] == "x" else "m0"]
@@ -327,7 +367,7 @@ def norm_x(v):
 
 def compare(ctx, shape, op, got, want, case):
     """got: spy log records (library), want: model observations (spies only, in activation order)"""
-    wspies = [w for w in want if w["sid"] != "dep"]
+    wspies = [w for w in want if w["sid"] not in ("dep", "sel")]
     if len(got) != len(wspies):
         ctx.violation("spy-activation-count:%s:%s" % (op, opener_kinds(shape)), "%s: %d spy activations observed, the model expects %d" % (op, len(got), len(wspies)), case)
         return False
@@ -542,6 +582,18 @@ def enumerate_small():
             out.append([ok, [["spy"], ["x", "d"], ["spy"], a]])
             out.append(["struct", [["x"], [ok, [["x", "d"], ["spy"], ["struct", [a, ["spy"]]] if ok != "lazystruct" else ["spy"]]]]])
             out.append(["array", 2, [ok, [["x", "d"], a, ["spy"]]], False])
+    # an array of self-derived members followed by a member whose length is one of its elements as actually built
+    for ok in ("struct", "seq"):
+        for i in (0, 1):
+            out.append([ok, [["arrd", 2], ["depa", i], ["spy"]]])
+            out.append(["struct", [["x"], [ok, [["spy"], ["arrd", 3], ["depa", i], ["dep", "this._.x"]]]]])
+            out.append(["array", 2, [ok, [["arrd", 2], ["depa", i]]], False])
+    # Unions whose continuation member is selected by a context expression
+    for sel in DEP_PATHS:
+        out.append(["struct", [["x"], ["union", [["x"], ["spy"]], sel], ["x", "d"]]] if False else ["struct", [["x"], ["struct", [["union", [["x"], ["spy"]], sel], ["spy"]]]]])
+        out.append(["array", 2, ["struct", [["x"], ["union", [["spy"], ["x"]], sel]]], False])
+        out.append(["struct", [["x"], ["seq", [["x"], ["struct", [["union", [["x"], ["spy"]], sel]]]]]]])
+        out.append(["union", [["x"], ["spy"]], sel])
     # plain nested structures inside a LazyStruct: entered through sizeof while parsing
     for inner in (["struct", [["spy"], ["x"], ["spy"]]], ["seq", [["spy"], ["struct", [["x"], ["spy"]]]]], ["struct", [["struct", [["seq", [["spy"]]]]], ["x"]]]):
         out.append(["lazystruct", [["x"], inner, ["spy"]]])
